@@ -266,10 +266,10 @@ Proof.
   - congruence.
 Qed.
 
-(* the version byte changed to anything but 0 or 1: the update never completes and valid stays False *)
+(* the version byte changed to anything but 0 or 1: valid is False (and the update completes, F14c repaired) *)
 Lemma i2c_version_other : forall f img tail v,
   i2c_wf f -> i2c_write f = Some img -> v <> 0 -> v <> 1 ->
-  exists e, i2c_parse (upd 4 v img ++ tail) = I2C_Res false false e.
+  exists e, i2c_parse (upd 4 v img ++ tail) = I2C_Res false true e.
 Proof.
   intros f img tail v Hwf W V0 V1.
   destruct (i2c_image_shape f img Hwf W)
